@@ -4861,6 +4861,7 @@ type enterFinally struct{}
 
 func (enterFinally) exec(vm *vm) {
 	tf := &vm.tryStack[len(vm.tryStack)-1]
+	tf.catchPos = -1 // an exception thrown in the finally block must not be caught by the catch block of the same statement
 	tf.finallyPos = -1
 	vm.pc++
 }
